@@ -19,6 +19,12 @@ func (r *Router) parseParamRoute(route *Route) (first string) {
 	if len(ss) == 0 {
 		regexStr := checkAndParseOptional(quotePointChar(path))
 		route.regex = regexp.MustCompile("^" + regexStr + "$")
+		// literal first node before the optional part. "/users/list[.html]" -> "users"
+		if optPos := strings.IndexByte(path, '['); optPos > 2 {
+			if pos := strings.IndexByte(path[1:optPos], '/'); pos > 0 {
+				first = path[1 : pos+1]
+			}
+		}
 		return
 	}
 
